@@ -53,6 +53,27 @@ func localT3() reflect.Type {
 var c09Static = []reflect.Type{
 	reflect.TypeOf(atypes.T{}), reflect.TypeOf(btypes.T{}), reflect.TypeOf(atypes.U{}), reflect.TypeOf(btypes.U{}),
 	localT1(), localT2(), localT3(), tRec, reflect.TypeOf(DeepTop{}), reflect.TypeOf(DeepMid{}),
+	reflect.TypeOf(c09NamedPtr{}), reflect.TypeOf([]c09LeafPtr(nil)),
+}
+
+// A DEFINED pointer type carries no methods: what it points to is decoded field by field even
+// though *c09Leaf has an UnmarshalJSON (sonic issue 379) - at every compile depth.
+type c09Leaf struct {
+	N int
+	S string
+}
+
+func (l *c09Leaf) UnmarshalJSON(b []byte) error {
+	l.N, l.S = -1, "via (*c09Leaf).UnmarshalJSON: "+string(b)
+	return nil
+}
+
+type c09LeafPtr *c09Leaf
+
+type c09NamedPtr struct {
+	L []c09LeafPtr
+	M map[string]c09LeafPtr
+	A [1]c09LeafPtr
 }
 
 // Per-call configurations: a cached program must not bake in what is a per-call option.
